@@ -129,7 +129,7 @@ def log_coq(log):
 
 
 def aws_coq(case):
-    return C.coq_list([f"({C.coq_bool(k == 'raise')}, {C.coq_opt(d, C.coq_N)}, {FORM_COQ[f]})"
+    return C.coq_list([f"({C.coq_bool(k.startswith('raise'))}, {C.coq_opt(d, C.coq_N)}, {FORM_COQ[f]})"
                        for (k, d), f in zip(case['scripts'], case['forms'])])
 
 
@@ -143,7 +143,7 @@ def mon_tags(case, obs):
     ins, own, lock, xb, done, tags = [], [], None, [], [], []
 
     def expected(i):
-        return ('KExc', i) if (i < n and case['scripts'][i][0] == 'raise') else ('KRet', i)
+        return ('KExc', i) if (i < n and case['scripts'][i][0].startswith('raise')) else ('KRet', i)
 
     for e in obs['log']:
         t, o = canon_event(e)
